@@ -1,15 +1,13 @@
 (** Totality-related facts about the parser model (property C01). *)
 From ClapModel Require Import Base.Bytes Base.Machine Base.Utf8.
 From ClapModel Require Import Parse.Cmd Parse.Build Parse.Valid Parse.Matcher Parse.Errors Parse.Validator Parse.Parser.
-From Coq Require Import ZArith.
+From ClapModel Require Import ParseProofs.Safe.
+From Coq Require Import ZArith Lia.
 From RecordUpdate Require Import RecordSet.
 Import RecordSetNotations.
 Open Scope N_scope.
 
 (** * [Arg::_build] fills in action, value count and value parser *)
-Definition arg_complete (a : arg) : Prop :=
-  a_action a <> None /\ a_num a <> None /\ a_vp a <> None.
-
 Lemma ab_action_spec a : a_action (ab_action a) <> None.
 Proof. unfold ab_action. destruct (a_action a) eqn:E; [rewrite E; discriminate | cbn; discriminate]. Qed.
 Lemma ab_default_action a : a_action (ab_default a) = a_action a.
@@ -81,14 +79,6 @@ Proof.
 Qed.
 
 (** * The short-cluster walk terminates within its fuel *)
-Lemma sf_next_shrinks r x r' : sf_next r = Some (x, r') -> (length r' < length r)%nat.
-Proof.
-  unfold sf_next. destruct r as [|b t]; [discriminate|].
-  destruct (utf8_step (b :: t)) as [[c n]|] eqn:E.
-  - intros H; inversion H; subst. apply utf8_step_len in E. rewrite skipn_length. cbn [length] in *. lia.
-  - intros H; inversion H; subst. cbn. lia.
-Qed.
-
 Lemma sf_any_unknown_total c : forall fuel r, (length r < fuel)%nat ->
   forall fuel', (length r < fuel')%nat -> sf_any_unknown c fuel r = sf_any_unknown c fuel' r.
 Proof.
